@@ -91,6 +91,10 @@ def check(mod, tier):
   violations = []          # (what, replay payload)
   suspicious = []          # proof/tie breakage descriptions -> extended search
 
+  # steps 1-3 use the shared Lean directory exclusively (a selftest on another tree may run at the same time); the
+  # driver built for this tree's constants is then copied to a private file
+  lean_lock = common.lean_lock()
+  lean_lock.__enter__()
   # 1. constants
   try:
     drift, consts = common.regen_constants()
@@ -140,6 +144,8 @@ def check(mod, tier):
       leanchecker = 'not run: %s' % e
   else:
     leanchecker = 'thorough tier only'
+  common.snapshot_driver()
+  lean_lock.__exit__()
 
   # 4. correspondence
   rng = common.make_rng(prop)
@@ -190,7 +196,7 @@ def check(mod, tier):
     path = common.write_replay(prop, {
         'property': prop, 'kind': 'spec-fails-on-real-observation', 'case': small,
         'real_observation': so, 'driver_line': sline, 'driver_reply': smsg, 'original_case': case,
-        'note': note})
+        'original_observation': o, 'original_driver_reply': msg, 'note': note})
     violations.append(path)
     out_lines.append('VIOLATION property=%s replay=%s' % (prop, path))
 
@@ -301,7 +307,10 @@ def replay(mod, path):
     print(json.dumps(payload, indent=1))
     print('replay: this file names a theorem/correspondence that no longer checks; re-run the check')
     return 0
-  common.lake_build(['driver'])
+  with common.lean_lock():
+    common.regen_constants()
+    common.lake_build(['driver'])
+    common.snapshot_driver()
   obs, res = run_cases(mod, [case], procs=1)
   line, (agree, holds, msg) = res[0]
   print('case            :', json.dumps(case))
